@@ -395,8 +395,10 @@ func (w *World) stateRec(kind string, drained bool) Rec {
 		sym := w.symOf(c.CID)
 		conns = append(conns, sym)
 		m := map[string]any{}
+		crn := map[string]any{}
+		rn[sym] = crn
 		for rid, s := range c.Subs {
-			rn[rid] = w.ridInfo(sym, rid)
+			crn[rid] = w.ridInfo(sym, rid)
 			m[rid] = map[string]any{"direct": s.Direct, "indirect": s.Indirect, "state": s.State,
 				"qf": s.QueueFlag, "eq": s.EventQueue, "acb": s.AccessCallbacks, "rcb": s.ReadyCallbacks}
 		}
